@@ -1782,7 +1782,7 @@ func (t *tScreen) parseRune(buf *bytes.Buffer, evs *[]Event) (bool, bool) {
 			continue
 		}
 		if nOut != 0 {
-			r, _ := utf8.DecodeRune(utf[:nOut])
+			r, n := utf8.DecodeRune(utf[:nOut])
 			if r != utf8.RuneError {
 				mod := ModNone
 				if t.escaped {
@@ -1790,6 +1790,13 @@ func (t *tScreen) parseRune(buf *bytes.Buffer, evs *[]Event) (bool, bool) {
 					t.escaped = false
 				}
 				*evs = append(*evs, NewEventKey(KeyRune, r, mod))
+				// one character may be more than one rune (Big5 has
+				// letters that come with their combining mark)
+				for n < nOut {
+					r2, n2 := utf8.DecodeRune(utf[n:nOut])
+					*evs = append(*evs, NewEventKey(KeyRune, r2, ModNone))
+					n += n2
+				}
 			} else if nOut > utf8.RuneLen(r) {
 				// an invalid byte, and the decoder went on to what
 				// follows it: only the invalid byte is dropped
